@@ -242,7 +242,7 @@ func ruleR20b2(c *Check) {
 func ruleR20c(c *Check) {
 	c.Rule("R20d", "list, deps, rdeps, changes, taint and owners-style queries construct their selector with selection.New and reach the same filter function as the build selector", 4)
 	newSel := anchor(c, "R20d", "selection", "", "New")
-	filt := anchor(c, "R20d", "selection", "Selector", "nodeMatchesFilters")
+	filt := selectorFilterFunc(c, "R20d")
 	if newSel == nil || filt == nil {
 		return
 	}
